@@ -5,6 +5,7 @@
 //!              every type deriving minicbor Encode/Decode)
 //!   * kernels: pure arithmetic/boolean kernels (see kernels.rs)
 mod cbor;
+mod dvtest;
 mod jsontags;
 mod kernels;
 
@@ -46,19 +47,20 @@ fn main() {
     }
     let mut manifest = serde_json::Map::new();
     let mut errors: Vec<String> = vec![];
+    let mut failed: Vec<&str> = vec![];
     match cbor::generate(&parsed) {
         Ok((lean, info)) => {
             std::fs::write(out.join("CborSchema.lean"), lean).expect("write");
             manifest.insert("cbor".into(), info);
         }
-        Err(e) => errors.push(e),
+        Err(e) => { failed.push("cbor"); errors.push(e) }
     }
     match jsontags::generate(&parsed) {
         Ok((lean, info)) => {
             std::fs::write(out.join("JsonTags.lean"), lean).expect("write");
             manifest.insert("jsontags".into(), info);
         }
-        Err(e) => errors.push(e),
+        Err(e) => { failed.push("jsontags"); errors.push(e) }
     }
     match kernels::generate(&parsed) {
         Ok((lean, lean_cursor, info)) => {
@@ -66,8 +68,16 @@ fn main() {
             std::fs::write(out.join("CursorKernels.lean"), lean_cursor).expect("write");
             manifest.insert("kernels".into(), info);
         }
-        Err(e) => errors.push(e),
+        Err(e) => { failed.push("kernels"); errors.push(e) }
     }
+    match dvtest::generate(&parsed) {
+        Ok((lean, info)) => {
+            std::fs::write(out.join("DvTest.lean"), lean).expect("write");
+            manifest.insert("dvtest".into(), info);
+        }
+        Err(e) => { failed.push("dvtest"); errors.push(e) }
+    }
+    manifest.insert("failed".into(), serde_json::json!(failed));
     std::fs::write(out.join("gen_manifest.json"), serde_json::to_string_pretty(&serde_json::Value::Object(manifest)).unwrap()).expect("write manifest");
     if !errors.is_empty() {
         for e in errors {
